@@ -147,11 +147,11 @@ def _params_equal(a, b):
     return json.dumps(a, sort_keys=True, default=str) == json.dumps(b, sort_keys=True, default=str)
 
 
-def h_single(B, cls="EOF", layout="2d", codec="identity", rot=None, p=3, flags=None, extra=None, when="after-fit", aux=False):
+def h_single(B, cls="EOF", layout="2d", codec="identity", rot=None, p=3, flags=None, extra=None, when="after-fit", aux=False, n=None, k=2):
     flags = dict(flags or {})
     extra = dict(extra or {})
     cplx = cls == "ComplexEOF"
-    X, dim, fd = M.make_input(B, layout, 4 if cls != "ExtendedEOF" else 5, p, cplx, flags)
+    X, dim, fd = M.make_input(B, layout, n or (4 if cls != "ExtendedEOF" else 5), p, cplx, flags)
     X = _with_attrs(X)
     if aux:
         # non-index coordinates: a scalar one (left behind by .sel(level=500)), a 1-D one on a feature dim, one on the sample dim, a 2-D one
@@ -162,7 +162,7 @@ def h_single(B, cls="EOF", layout="2d", codec="identity", rot=None, p=3, flags=N
         if len(fdim) == 2:
             X = X.assign_coords(cell=(tuple(fdim), np.arange(X.sizes[fdim[0]] * X.sizes[fdim[1]], dtype=float).reshape(X.sizes[fdim[0]], X.sizes[fdim[1]])))
         X.name = nm
-    model = M.single(cls, n_modes=2, solver="full", **flags, **extra)
+    model = M.single(cls, n_modes=k, solver="full", **flags, **extra)
     model.fit(X, dim)
     if rot:
         model = M.rotate(model, **rot)
@@ -202,9 +202,18 @@ def h_single(B, cls="EOF", layout="2d", codec="identity", rot=None, p=3, flags=N
             if t_old is not None and t_new is not None:
                 B.eq("transform(training data) equal", t_new, t_old)
     if layout not in ("multiindex", "stacked-sample", "stacked-sample-ym"):
-        S = xr.DataArray(B.array((2, 2), "S", cplx), dims=("time", "mode"), coords={"time": [100, 101], "mode": [1, 2]})
+        S = xr.DataArray(B.array((2, k), "S", cplx), dims=("time", "mode"), coords={"time": [100, 101], "mode": list(range(1, k + 1))})
         B.eq("inverse_transform(S) equal", m2.inverse_transform(S), model.inverse_transform(S))
     B.eq("explained variance equal", m2.explained_variance(), model.explained_variance())
+    if rot and rot.get("compute") is False:
+        # a lazily fitted rotator was serialised before compute(): both objects must also agree after compute()
+        B.completes("compute() on the original runs", lambda: model.compute() or True)
+        B.completes("compute() on the rebuilt model runs", lambda: m2.compute() or True)
+        B.eq("after compute(): components equal", m2.components(), model.components())
+        B.eq("after compute(): scores equal", m2.scores(), model.scores())
+        B.eq("after compute(): explained variance equal", m2.explained_variance(), model.explained_variance())
+        if Xn is not None:
+            B.eq("after compute(): transform(X_new) equal", m2.transform(Xn), model.transform(Xn))
 
 
 def h_cross(B, cls="CPCCA", codec="identity", alpha=0.5, use_pca=False, rot=None):
@@ -268,6 +277,7 @@ def configs(tier):
     add("h_single", "ComplexEOF|2d|netcdf-attrs", cls="ComplexEOF", codec="netcdf-attrs")
     add("h_single", "EOFRotator|2d|netcdf-attrs", cls="EOF", codec="netcdf-attrs", rot={"n_modes": 2, "power": 1})
     add("h_single", "EOFRotator|power2|json", cls="EOF", codec="json", rot={"n_modes": 2, "power": 2})
+    add("h_single", "EOFRotator|compute=False, serialised before compute()|n5p3k3|json", cls="EOF", codec="json", n=5, p=3, k=3, rot={"n_modes": 3, "power": 1, "compute": False})
     add("h_single", "ExtendedEOF|netcdf-attrs", cls="ExtendedEOF", codec="netcdf-attrs", p=2, extra={"tau": 1, "embedding": 2})
     add("h_single", "HilbertEOF|json", cls="HilbertEOF", codec="json", p=2, extra={"padding": "none"})
     for codec in ("netcdf-attrs", "json"):
